@@ -19,9 +19,9 @@ _TOK = None
 
 def norm(html):
     """insignificant whitespace between block tags; one trailing newline"""
-    html = html.replace(">\n<", "><")
     while " \n" in html:  # spaces before a line ending inside text are insignificant
         html = html.replace(" \n", "\n")
+    html = html.replace(">\n<", "><")
     if html.endswith("\n"):
         html = html[:-1]
     return html
